@@ -44,6 +44,7 @@ import (
 	"istio.io/istio/pkg/config/protocol"
 	"istio.io/istio/pkg/proto"
 	"istio.io/istio/pkg/slices"
+	"istio.io/istio/pkg/util/protomarshal"
 	"istio.io/istio/pkg/util/sets"
 )
 
@@ -211,6 +212,15 @@ func (configgen *ConfigGeneratorImpl) buildSidecarOutboundHTTPRouteConfig(
 	}
 
 	util.SortVirtualHosts(virtualHosts)
+
+	if len(efKeys) > 0 {
+		// EnvoyFilter patches are merged into the virtual hosts in place, and the virtual hosts are shared with the
+		// other route configurations of this port through vHostCache: patch private copies, otherwise a virtual host
+		// is patched once per route configuration it appears in, depending on the order of the route names.
+		virtualHosts = slices.Map(virtualHosts, func(vh *route.VirtualHost) *route.VirtualHost {
+			return protomarshal.Clone(vh)
+		})
+	}
 
 	if !useSniffing {
 		ph := util.GetProxyHeaders(node, req.Push, istionetworking.ListenerClassSidecarOutbound)
